@@ -396,6 +396,20 @@ theorem buf2NewFrom_ok_iff {α : Type} (w h : Nat) (init : List α) (hwh : w * h
   · have hlen : (init.take (w * h)).length ≠ w * h := by simp; omega
     simp [buf2NewFrom, hsz, hlen, hl]
 
+/-- `Buf2::new_with((w, h), f)`: element `k` of the backing vector is `f(k mod w, k div w)` — the
+closure's `(x, y)` counters walk the cells in row-major order — stride `w`, no panic when `w·h` fits `u32`. -/
+theorem buf2NewWith_spec {α : Type} (w h : Nat) (f : Nat → Nat → α) (hwh : w * h < 4294967296) :
+    buf2NewWith w h f = .ok ({ w := w, h := h, stride := w, off := 0, len := w * h },
+      (List.range (w * h)).map (fun k => f (k % w) (k / w))) := by
+  have hsz : ¬ w * h > isizeMax := by unfold isizeMax; omega
+  have hseq : newWithSeq w f (w * h) 0 0 = (List.range (w * h)).map (fun k => f (k % w) (k / w)) := by
+    rcases Nat.eq_zero_or_pos w with h0 | hp
+    · subst h0; simp [newWithSeq]
+    · rw [newWithSeq_spec w hp f (w * h) 0 0 hp]
+      simp
+  simp only [buf2NewWith, hsz, if_false, hseq]
+  exact (buf2NewFrom_ok_iff w h _ hwh _ _).mpr ⟨by simp, (List.take_of_length_le (by simp)).symm, rfl⟩
+
 theorem buf2NewFrom_reachable {α : Type} {w h : Nat} {init : List α} {v : View} {root : List α}
     (hwh : w * h < 4294967296) (hb : buf2NewFrom w h init = .ok (v, root)) : Reachable root.length v := by
   obtain ⟨hl, rfl, rfl⟩ := (buf2NewFrom_ok_iff w h init hwh v root).mp hb
@@ -599,6 +613,31 @@ theorem path_cell (n : Nat) (v : View) (hv : ViewInv n v) (rcs : List Rect) (hp 
         v.off + ((rcT rc + (origin (childOf v rc) rcs).2 + y) * v.stride + (rcL rc + (origin (childOf v rc) rcs).1 + x))
       rw [a3, b3]
       simp only [Nat.add_assoc]
+
+/-- **slice_compose.** Slicing a slice is slicing the parent by the translated rectangle: same
+width, height and stride, and — whenever the result has any row — the same offset, hence the very
+same cells. (With zero rows the two offsets may differ; such views address no element.) -/
+theorem slice_compose (v : View) (rc1 rc2 : Rect) (h1 : Inside rc1 v) (h2 : Inside rc2 (childOf v rc1)) :
+    let c := childOf (childOf v rc1) rc2
+    let d := childOf v (Rect.ofCorners (rcL rc1 + rcL rc2) (rcT rc1 + rcT rc2)
+      (rcL rc1 + rcR rc2 (childOf v rc1)) (rcT rc1 + rcB rc2 (childOf v rc1)))
+    c.w = d.w ∧ c.h = d.h ∧ c.stride = d.stride ∧ (0 < c.h → c.off = d.off) := by
+  obtain ⟨a1, a2, a3, a4⟩ := h1
+  obtain ⟨b1, b2, b3, b4⟩ := h2
+  simp only [childOf, rcL, rcT, rcR, rcB, Rect.ofCorners, Option.getD_some] at *
+  by_cases e1 : rc1.bottom.getD v.h = rc1.top.getD 0
+  · simp only [e1, if_true] at b1 b2 b3 b4 ⊢
+    have : rc2.bottom.getD 0 = rc2.top.getD 0 := by omega
+    split_ifs <;> simp_all <;> omega
+  · simp only [e1, if_false] at b1 b2 b3 b4 ⊢
+    by_cases e2 : rc2.bottom.getD (rc1.bottom.getD v.h - rc1.top.getD 0) = rc2.top.getD 0
+    · simp only [e2, if_true]
+      exact ⟨by omega, trivial, trivial, fun h => absurd h (by omega)⟩
+    · simp only [e2, if_false]
+      have e3 : ¬ (rc1.top.getD 0 + rc2.bottom.getD (rc1.bottom.getD v.h - rc1.top.getD 0) = rc1.top.getD 0 + rc2.top.getD 0) := by omega
+      simp only [e3, if_false]
+      refine ⟨by omega, by omega, trivial, fun _ => ?_⟩
+      rw [Nat.add_mul]; omega
 
 /-- The slices along a valid chain all succeed and produce `descend` (so the chain is what the
 code computes, not just a specification device). -/
